@@ -248,3 +248,456 @@ def check_C08(tier, seed):
             "random numbers in every spelling, random alphabet strings; each under 13 (style, tag) configurations; "
             "non-trivial = distinct texts whose untagged plain reading is not a string" % len(C08_ALPHA))
     return res.finish(proof, rule)
+
+
+# ------------------------------------------------------------------------------------------------
+# C17 — pull, peek and push agree
+# ------------------------------------------------------------------------------------------------
+def c17_histories(tier, rng, n_events):
+    """histories for one stream: random P/N strings long enough to run past StreamEnd"""
+    out = []
+    k = 3 if tier == "quick" else 12
+    for _ in range(k):
+        ln = rng.randrange(1, 2 * n_events + 6)
+        out.append("".join(rng.choice("PN") for _ in range(ln)))
+    return out
+
+
+def check_C17(tier, seed):
+    res = Result("C17", tier, seed)
+    proof = prepare("C17", res)
+    rng = gen.rng_for(seed, "C17")
+    groups = gen.parse_space(tier, rng)
+    if tier == "quick":
+        groups = [(l, (items if l != "exhaustive<=3/24" else items[::3])) for l, items in groups]
+    cases, dist = dedupe(groups)
+    lines = [enc(s) for s in cases]
+    res.coverage["input_distribution"] = dict(groups=dist, sizes=size_hist(cases))
+    if res.harness_ok and res.model_ok:
+        plain = {b: run_hx(["events", b], lines) for b in ("str", "iter")}
+        push = {"str:multi": run_hx(["push", "str:multi"], lines), "iter:multi": run_hx(["push", "iter:multi"], lines),
+                "str:single": run_hx(["push", "str:single"], lines)}
+        # push == pull: same events, spans and error
+        for i, s in enumerate(cases):
+            res.evaluations += 1
+            for k, outs in push.items():
+                b = k.split(":")[0]
+                if outs[i] != plain[b][i]:
+                    res.add_violation("push interface (%s) delivers different events/spans/error than the iterator" % k,
+                                      dict(input=s, codepoints=enc(s), api=k), push=outs[i][-600:], pull=plain[b][i][-600:])
+        # histories: exhaustive short histories on small streams + random histories everywhere
+        hist_cases = []    # (case index, pattern)
+        small = [i for i, s in enumerate(cases) if len(split_line(plain["str"][i])[0]) <= 12]
+        rng.shuffle(small)
+        exh_n = 40 if tier == "quick" else 400
+        maxlen = 9 if tier == "quick" else 13
+        import itertools
+        for i in small[:exh_n]:
+            n = len(split_line(plain["str"][i])[0])
+            L = min(maxlen, n + 3)
+            for ln in range(1, L + 1):
+                for t in itertools.product("PN", repeat=ln):
+                    hist_cases.append((i, "".join(t)))
+        for i in range(len(cases)):
+            n = len(split_line(plain["str"][i])[0])
+            for h in c17_histories(tier, rng, n):
+                hist_cases.append((i, h))
+        for backend in ("str", "iter"):
+            hl = ["%s#%s" % (h, lines[i]) for i, h in hist_cases]
+            got = run_hx(["hist", backend], hl)
+            spec_in = []
+            for i, h in hist_cases:
+                evs, fin = split_line(plain[backend][i])
+                kind = "S" if fin == "OK" else "E"
+                spec_in.append("%s#%d#%s" % (h, len(evs), kind))
+            spec = run_mx(["hist-spec"], spec_in)
+            for j, (i, h) in enumerate(hist_cases):
+                res.evaluations += 1
+                evs, fin = split_line(plain[backend][i])
+                exp = []
+                for tok in spec[j].split(";") if spec[j] else []:
+                    if tok == "NONE":
+                        exp.append("NONE")
+                    elif tok == "ERR":
+                        exp.append(fin)
+                    else:
+                        exp.append(evs[int(tok)])
+                if got[j] != ";".join(exp):
+                    res.add_violation("peek/next history disagrees with plain iteration (oracle: extracted spec_run)",
+                                      dict(input=cases[i], codepoints=lines[i], history=h, backend=backend),
+                                      got=got[j][-500:], expected=";".join(exp)[-500:])
+                elif len(evs) >= 4:
+                    res.nontrivial.add((i, h))
+        res.coverage["histories"] = len(hist_cases)
+        res.coverage["traces_validated_against_impl"] = len(hist_cases) * 2
+        for j in (0, len(hist_cases) // 2, len(hist_cases) - 1):
+            i, h = hist_cases[j]
+            res.samples.append(dict(input=cases[i], history=h))
+    res.nontrivial = set("%d/%s" % x if isinstance(x, tuple) else x for x in res.nontrivial)
+    rule = ("C01 input space; for each input: push (multi, repeated single) vs iterator on two back-ends; peek/next histories: "
+            "all P/N strings up to a bound for small streams, random histories for every input; expected results computed by the "
+            "extracted Coq specification spec_run from the plain iteration; non-trivial = distinct (input, history) pairs on "
+            "streams of >= 4 events that matched")
+    return res.finish(proof, rule)
+
+
+# ------------------------------------------------------------------------------------------------
+# shared: one pass over the parse space with every back-end
+# ------------------------------------------------------------------------------------------------
+BACKENDS = ["str", "iter", "cap8", "cap16", "cap64", "cap128"]
+
+
+def parse_cases(tier, seed, pid, thin=1):
+    rng = gen.rng_for(seed, pid)
+    groups = gen.parse_space(tier, rng)
+    if thin > 1:
+        groups = [(l, (items if not l.startswith("exhaustive") else items[::thin])) for l, items in groups]
+    return dedupe(groups)
+
+
+def markers_of(line):
+    """all (i, l, c) markers of an events line, in order, plus the error marker"""
+    evs, fin = split_line(line)
+    out = []
+    for e in evs:
+        sp = e.rsplit("@", 1)[1]
+        a, b = sp.split("-")
+        out.append(a)
+        out.append(b)
+    if fin.startswith("ERR@"):
+        out.append(fin_pos(fin)[4:])
+    return out
+
+
+def strip_index(line):
+    """events line with markers reduced to line:col (C14)"""
+    import re
+    return re.sub(r"(\d+):(\d+):(\d+)", r"\2:\3", line)
+
+
+# ------------------------------------------------------------------------------------------------
+# C01 — parsing always terminates, never panics, linear work
+# ------------------------------------------------------------------------------------------------
+def nesting_depth(line):
+    d = mx = 0
+    for e in split_line(line)[0]:
+        if e[:2] in ("QS", "MS"):
+            d += 1
+            mx = max(mx, d)
+        elif e[:2] in ("QE", "ME"):
+            d -= 1
+    return mx
+
+
+def check_C01(tier, seed):
+    res = Result("C01", tier, seed)
+    proof = prepare("C01", res)
+    cases, dist = parse_cases(tier, seed, "C01")
+    # long inputs: linear work must hold beyond the small scope
+    rng = gen.rng_for(seed, "C01-long")
+    longs = []
+    for n in ((2000, 20000) if tier == "quick" else (2000, 20000, 200000)):
+        longs += ["- a\n" * (n // 4), "a: b\n" * (n // 5), "[" + "a, " * (n // 3) + "a]", "\"" + "x " * (n // 2) + "\"", "# c\n" * (n // 4),
+                  "a" * n, " " * n, "\n" * n, "- " * min(n // 2, 150) + "a", "'" + "a\n" * (n // 2) + "'", "|\n" + " x\n" * (n // 3),
+                  "? " * min(n // 2, 150), "k: " * 1 + "v " * (n // 2), "&a " * (n // 3), "!t " * (n // 3), "{" + "a: b, " * (n // 6) + "}",
+                  "- [" * min(n // 3, 200) + "]" * min(n // 3, 200), ": " * (n // 2), "- \t" * (n // 3), "a:\n" + " b:\n" * (n // 4)]
+        longs += ["".join(rng.choice(gen.TOKENS) for _ in range(n // 3))]
+    cases += [s for s in longs if s not in set(cases)]
+    dist["long-inputs"] = len(longs)
+    lines = [enc(s) for s in cases]
+    res.coverage["input_distribution"] = dict(groups=dist, sizes=size_hist(cases))
+    apis = []
+    if res.harness_ok and res.model_ok:
+        runs = {}
+        for b in BACKENDS:
+            runs["events/" + b] = run_hx(["events", b], lines)
+        for b in ("str", "iter", "cap8"):
+            runs["push/" + b] = run_hx(["push", b + ":multi"], lines)
+            runs["push1/" + b] = run_hx(["push", b + ":single"], lines)
+        for t in ("yaml", "owned", "marked", "markedowned"):
+            runs["load/" + t] = run_hx(["load", t, "eager"], lines)
+            runs["load-deferred/" + t] = run_hx(["load", t, "resolved"], lines)
+        hl = ["%s#%s" % ("PNPPN" * 12, l) for l in lines]
+        runs["peeknext/str"] = run_hx(["hist", "str"], hl)
+        work = run_hx(["work", "cap16"], lines)
+        apis = sorted(runs)
+        # the extracted model is run on inputs up to 4000 characters (it is slower than the implementation)
+        short = [l if len(cases[i]) <= 4000 else "" for i, l in enumerate(lines)]
+        model = {"str": run_mx(["events", "str"], short), "buf16": run_mx(["events", "buf16"], short),
+                 "buf8": run_mx(["events", "buf8"], short)}
+        worst = 0.0
+        known = core.known_findings("C01")
+        kf = set()
+        for i, s in enumerate(cases):
+            res.evaluations += 1
+            for k, outs in runs.items():
+                o = outs[i]
+                fin = o.rsplit("|", 1)[-1] if "|" in o else o
+                if "NOTRUN" in fin:
+                    continue          # the process died on an earlier case of this shard, which is reported
+                if "CRASH" in fin and known and k.split("/")[0] in known[0]["apis"] \
+                        and nesting_depth(runs["events/str"][i]) >= known[0]["min_depth"]:
+                    kf.add("%s: %s" % (known[0]["class"], known[0]["what"]))
+                    continue
+                if "PANIC" in fin or "TIMEOUT" in fin or "CRASH" in fin or "SPIN" in fin:
+                    res.add_violation("%s panics / aborts / does not terminate" % k, dict(input=s[:4000], codepoints=lines[i][:20000], api=k),
+                                      impl=o[-300:])
+            w = work[i].split("|")
+            if len(w) == 4 and w[0].isdigit():
+                n, calls = int(w[0]), int(w[1])
+                ratio = calls / (n + 64.0)
+                worst = max(worst, ratio)
+                if calls > 64 * n + 4096:
+                    res.add_violation("work is not linear: %d input calls for %d characters (bound 64 n + 4096)" % (calls, n),
+                                      dict(input=s[:4000], codepoints=lines[i][:20000]), impl=work[i])
+            else:
+                res.add_violation("work counter run failed", dict(input=s[:4000], codepoints=lines[i][:20000]), impl=work[i][-300:])
+            # model monitors: the model's explicit Panic / OutOfFuel outcomes
+            impl_line = runs["events/str"][i]
+            for mk, outs in model.items():
+                if len(s) > 4000:
+                    continue
+                m = outs[i]
+                mfin = m.rsplit("|", 1)[-1]
+                if mfin.startswith("MODEL"):
+                    res.add_tie_break("model monitor: the %s model run ended in %s" % (mk, mfin), case=s[:2000])
+                elif proj_kinds(m) != proj_kinds(impl_line) or fin_pos(mfin) != fin_pos(impl_line.rsplit("|", 1)[-1]):
+                    res.add_tie_break("correspondence: %s model != implementation (event kinds / verdict / error position)" % mk,
+                                      case=s[:2000], model=proj_kinds(m)[-300:] + " " + fin_pos(mfin), impl=proj_kinds(impl_line)[-300:])
+            evs, _ = split_line(impl_line)
+            if len(evs) >= 5:
+                res.nontrivial.add(s)
+        res.known += sorted(kf)
+        res.coverage["apis"] = apis
+        res.coverage["worst_calls_per_char"] = round(worst, 2)
+        res.coverage["traces_validated_against_impl"] = len(cases) * 3
+        for i in (3, len(cases) // 2, len(cases) - 3):
+            res.samples.append(dict(input=cases[i][:200], work=work[i]))
+    rule = ("C01 input space + long repetitive inputs, x 6 input back-ends (string, iterator, contract-checking inputs of capacity "
+            "8/16/64/128) x {iterator, push multi/single, peek+next, 4 loaders eager and deferred}; per-case panic capture, process "
+            "crash detection, input-call counting; non-trivial = distinct inputs whose stream has >= 5 events")
+    return res.finish(proof, rule)
+
+
+# ------------------------------------------------------------------------------------------------
+# C10 — all input back-ends behave identically
+# ------------------------------------------------------------------------------------------------
+def check_C10(tier, seed):
+    res = Result("C10", tier, seed)
+    proof = prepare("C10", res)
+    cases, dist = parse_cases(tier, seed, "C10")
+    rng = gen.rng_for(seed, "C10-wide")
+    # the code paths that branch on buffer state: wide block-scalar indentation, long plain scalars, long lines
+    wide = []
+    for ind in (5, 6, 7, 13, 14, 15, 16, 17, 30, 62, 63, 64, 65, 126, 127, 130):
+        wide += ["a:\n" + " " * ind + "b: |\n" + " " * (ind + 2) + "text\n" + " " * (ind + 2) + "more\n",
+                 "- |" + str(min(ind, 9)) + "\n" + " " * ind + "x\n", " " * ind + "k: >\n" + " " * (ind + 1) + "f\n\n" + " " * (ind + 1) + "g\n",
+                 "k: " + "p" * ind + " " + "q" * ind + "\n", "\"" + "d" * ind + "\\u00e9" + "e" * ind + "\"", "'" + "s" * ind + "''" + "t" * ind + "'",
+                 "# " + "c" * ind + "\nv", "- " + "\u00e9" * ind + ": " + "\U0001f600" * ind + "\n", "|\n" + " " * ind + "\n" + " " * (ind + 1) + "z\n",
+                 "a:\n" + " " * ind + "- b\n" + " " * ind + "- |\n" + " " * (ind + 3) + "t\n"]
+    cases += [s for s in wide if s not in set(cases)]
+    dist["buffer-boundary"] = len(wide)
+    lines = [enc(s) for s in cases]
+    res.coverage["input_distribution"] = dict(groups=dist, sizes=size_hist(cases))
+    if res.harness_ok and res.model_ok:
+        impl = {b: run_hx(["events", b], lines) for b in BACKENDS}
+        model = {"str": run_mx(["events", "str"], lines), "buf16": run_mx(["events", "buf16"], lines),
+                 "buf8": run_mx(["events", "buf8"], lines), "buf64": run_mx(["events", "buf64"], lines)}
+        for i, s in enumerate(cases):
+            res.evaluations += 1
+            ref = impl["str"][i]
+            for b in BACKENDS[1:]:
+                if impl[b][i] != ref:
+                    res.add_violation("back-end %s differs from the string back-end (events, spans or error message/position)" % b,
+                                      dict(input=s, codepoints=lines[i], backend=b), other=impl[b][i][-600:], string_backend=ref[-600:])
+            # model: the buffered instances equal the string instance, and the implementation (positions included)
+            mref = model["str"][i]
+            for mk in ("buf16", "buf8", "buf64"):
+                if model[mk][i] != mref:
+                    res.add_tie_break("model: %s instance differs from the str instance" % mk, case=s, a=model[mk][i][-300:], b=mref[-300:])
+            me, mf = split_line(mref)
+            ie, if_ = split_line(ref)
+            if me != ie or fin_pos(mf) != fin_pos(if_):
+                res.add_tie_break("correspondence: model pipeline != implementation (events with text, tags, spans; error position)",
+                                  case=s, model=mref[-400:], impl=ref[-400:])
+            if len(ie) >= 5:
+                res.nontrivial.add(s)
+        res.coverage["backends"] = BACKENDS
+        res.coverage["traces_validated_against_impl"] = len(cases)
+        for i in (3, len(cases) // 2, len(cases) - 3):
+            res.samples.append(dict(input=cases[i][:200], events=impl["str"][i][:300]))
+    rule = ("C01 input space + inputs built around the buffer-dependent paths (indentation and run lengths around every capacity) on "
+            "StrInput, BufferedInput and contract-checking inputs of capacity 8/16/64/128: complete event lines (text, tags, spans, "
+            "error message and position) must be identical; the model's str/buf8/buf16/buf64 instances likewise and equal to the "
+            "implementation; non-trivial = distinct inputs with >= 5 events")
+    return res.finish(proof, rule)
+
+
+# ------------------------------------------------------------------------------------------------
+# C12 — reported positions are true positions
+# ------------------------------------------------------------------------------------------------
+def span_checks(s, line):
+    """structural span facts on one events line; returns a list of failure descriptions"""
+    evs, fin = split_line(line)
+    bad = []
+    stack = []
+    for e in evs:
+        body, sp = e.rsplit("@", 1)
+        a, b = sp.split("-")
+        ai, al, ac = map(int, a.split(":"))
+        bi, bl, bc = map(int, b.split(":"))
+        if ai > bi:
+            bad.append("span starts after it ends: " + e)
+        if body.startswith(("QS", "MS")):
+            if stack and ai < stack[-1]:
+                bad.append("nested node starts before its parent: " + e)
+            stack.append(ai)
+        elif body in ("QE", "ME"):
+            if stack:
+                st = stack.pop()
+                if bi < st:
+                    bad.append("collection ends before it starts: " + e)
+        elif body.startswith("SC") or body.startswith("AL"):
+            if stack and ai < stack[-1]:
+                bad.append("nested node starts before its parent: " + e)
+        if body.startswith("SC"):
+            parts = body[2:].split(",")
+            style = parts[0]
+            txt = "".join(chr(int(x)) for x in parts[-1].split(".")) if parts[-1] else ""
+            if style == "P" and txt and "\n" not in txt and al == bl:
+                # nodes the syntax leaves out are reported as the plain scalar "~" at the position of the next token
+                if s[ai:bi] != txt and txt != "~":
+                    bad.append("plain one-line scalar span does not cover exactly its text: " + e)
+            if style in ("S", "D") and bi <= len(s):
+                q = "'" if style == "S" else "\""
+                if not (ai < len(s) and s[ai] == q):
+                    bad.append("quoted scalar span does not start at its opening quote: " + e)
+                elif q not in s[ai + 1:bi]:
+                    bad.append("quoted scalar span does not contain its closing quote: " + e)
+    return bad
+
+
+def check_C12(tier, seed):
+    res = Result("C12", tier, seed)
+    proof = prepare("C12", res)
+    cases, dist = parse_cases(tier, seed, "C12")
+    rng = gen.rng_for(seed, "C12-uni")
+    uni = []
+    for _ in range(1500 if tier == "quick" else 30000):
+        k = 1 + rng.randrange(10)
+        uni.append("".join(rng.choice(gen.TOKENS + ["\u00e9: \u4e2d\n", "\U0001f600", "- \u00fc\r\n", "\"\u00e9\\n\"", "# \u4e2d\r", "k:  v   # c\r\n"]) for _ in range(k)))
+    cases += [s for s in uni if s not in set(cases)]
+    dist["multibyte/crlf soups"] = len(uni)
+    lines = [enc(s) for s in cases]
+    res.coverage["input_distribution"] = dict(groups=dist, sizes=size_hist(cases))
+    if res.harness_ok and res.model_ok:
+        impl = {b: run_hx(["events", b], lines) for b in ("str", "iter")}
+        disp = run_hx(["display"], lines)
+        marked = {t: run_hx(["load", t, "eager+spans"], lines) for t in ("marked", "markedowned")}
+        model = run_mx(["events", "str"], lines)
+        nmark = 0
+        import re
+        for b in impl:
+            ml = ["%s#%s" % (lines[i], ",".join(markers_of(impl[b][i]))) for i in range(len(cases))]
+            verd = run_mx(["markers"], ml)
+            for i, s in enumerate(cases):
+                res.evaluations += 1
+                ms = markers_of(impl[b][i])
+                nmark += len(ms)
+                v = verd[i]
+                if len(v) != len(ms) or "0" in v:
+                    k = v.find("0") if len(v) == len(ms) else -1
+                    res.add_violation("a reported position is outside the input or its line/column is not the true one (back-end %s): %s"
+                                      % (b, ms[k] if k >= 0 else v[:80]), dict(input=s, codepoints=lines[i], backend=b), impl=impl[b][i][-500:])
+                for f in span_checks(s, impl[b][i]):
+                    res.add_violation("span shape (back-end %s): %s" % (b, f), dict(input=s, codepoints=lines[i], backend=b), impl=impl[b][i][-500:])
+        for i, s in enumerate(cases):
+            evs, fin = split_line(impl["str"][i])
+            # printed form of the error: "<info> at byte I line L column C+1"
+            if fin.startswith("ERR@"):
+                I, L, C = fin_pos(fin)[4:].split(":")
+                want = "%s at byte %s line %s column %d" % (core.fin_msg(fin), I, L, int(C) + 1)
+                got = disp[i].split("#", 1)[-1]
+                if got != want:
+                    res.add_violation("printed error does not show the line and the 1-based column", dict(input=s, codepoints=lines[i]),
+                                      printed=got, expected=want)
+            elif disp[i] != "OK":
+                res.add_violation("display run disagrees with iteration", dict(input=s, codepoints=lines[i]), printed=disp[i])
+            # marked nodes carry the span of the event that created them
+            if fin == "OK":
+                want = [e.rsplit("@", 1)[1] for e in evs if e[:2] in ("SC", "QS", "MS", "AL")]
+                for t, outs in marked.items():
+                    if not outs[i].startswith("OK"):
+                        res.add_violation("marked load fails where iteration succeeds", dict(input=s, codepoints=lines[i], node=t), impl=outs[i][-300:])
+                        continue
+                    got = sorted(re.findall(r"@(\d+:\d+:\d+-\d+:\d+:\d+)", outs[i]))
+                    # alias copies inside the copied subtree keep the spans of the original nodes; the copy's root gets the alias span.
+                    # every node span must be the span of some node-creating event, and every such event's span must appear
+                    miss = [x for x in set(want) if x not in got and not any(e.startswith("DE") for e in [])]
+                    extra = [x for x in set(got) if x not in want]
+                    empty_docs = sum(1 for k in range(len(evs) - 1) if evs[k].startswith("DS") and evs[k + 1].startswith("DE"))
+                    # a later duplicate key replaces the earlier value (its node, hence its span, is dropped): spans may only
+                    # go missing in documents that contain mappings
+                    if "M{" in outs[i]:
+                        miss = []
+                    if (miss or extra) and not empty_docs:
+                        res.add_violation("marked nodes do not carry the spans of their creating events (%s)" % t,
+                                          dict(input=s, codepoints=lines[i], node=t), missing=miss[:5], extra=extra[:5], impl=outs[i][-400:])
+            me, mf = split_line(model[i])
+            if me != evs or fin_pos(mf) != fin_pos(fin):
+                res.add_tie_break("correspondence: model pipeline != implementation (spans and error position included)", case=s,
+                                  model=model[i][-400:], impl=impl["str"][i][-400:])
+            if len(evs) >= 5:
+                res.nontrivial.add(s)
+        res.coverage["markers_checked"] = nmark
+        res.coverage["traces_validated_against_impl"] = len(cases)
+        for i in (3, len(cases) // 2, len(cases) - 3):
+            res.samples.append(dict(input=cases[i][:200], markers=markers_of(impl["str"][i])[:12]))
+    rule = ("C01 input space + multi-byte/CRLF soups; every marker of every event span and error of both back-ends is recounted by "
+            "the extracted Coq marker_ok; span-shape rules; Display of errors; MarkedYaml / MarkedYamlOwned node spans vs event spans; "
+            "non-trivial = distinct inputs with >= 5 events")
+    return res.finish(proof, rule)
+
+
+# ------------------------------------------------------------------------------------------------
+# C14 — line-break style does not change the parse
+# ------------------------------------------------------------------------------------------------
+def check_C14(tier, seed):
+    res = Result("C14", tier, seed)
+    proof = prepare("C14", res)
+    cases, dist = parse_cases(tier, seed, "C14")
+    cases = [s for s in cases if "\r" not in s]
+    base = [enc(s) for s in cases]
+    crlf = [enc(s.replace("\n", "\r\n")) for s in cases]
+    cr = [enc(s.replace("\n", "\r")) for s in cases]
+    res.coverage["input_distribution"] = dict(groups=dist, sizes=size_hist(cases), cr_free=len(cases))
+    if res.harness_ok and res.model_ok:
+        for b in ("str", "iter"):
+            r0 = run_hx(["events", b], base)
+            r1 = run_hx(["events", b], crlf)
+            r2 = run_hx(["events", b], cr)
+            for i, s in enumerate(cases):
+                res.evaluations += 1
+                a = strip_index(r0[i])
+                for name, r in (("CRLF", r1), ("CR", r2)):
+                    if strip_index(r[i]) != a:
+                        res.add_violation("replacing LF by %s changes events, text, line/column or the error (back-end %s)" % (name, b),
+                                          dict(input=s, codepoints=base[i], substitution=name, backend=b),
+                                          lf=a[-500:], other=strip_index(r[i])[-500:])
+                if b == "str" and "\n" in s and len(split_line(r0[i])[0]) >= 4:
+                    res.nontrivial.add(s)
+        m0 = run_mx(["events", "str"], base)
+        m1 = run_mx(["events", "str"], crlf)
+        r1 = run_hx(["events", "str"], crlf)
+        for i, s in enumerate(cases):
+            me, mf = split_line(m1[i])
+            ie, if_ = split_line(r1[i])
+            if me != ie or fin_pos(mf) != fin_pos(if_):
+                res.add_tie_break("correspondence on the CRLF image: model != implementation", case=s, model=m1[i][-300:], impl=r1[i][-300:])
+        res.coverage["traces_validated_against_impl"] = len(cases)
+        for i in (3, len(cases) // 2, len(cases) - 3):
+            res.samples.append(dict(input=cases[i][:200]))
+    rule = ("every CR-free input of the C01 space, parsed as is, with LF->CRLF and with LF->CR, on two back-ends; compared: complete "
+            "event lines (kinds, scalar text, tags, anchors) with every marker reduced to line:column, and the verdict with error message "
+            "and line:column; non-trivial = distinct multi-line inputs with >= 4 events")
+    return res.finish(proof, rule)
